@@ -7,8 +7,10 @@ _C19_IGNORE = _os.path.join(_os.path.dirname(_os.path.abspath(__file__)), 'engin
 # std:: / rapidcheck types compatible with their prebuilt libraries
 target('c19_sdu', 'engines/comp/c19_sdu.cpp', inc=_C19_NRF_INC,
        cxxflags=['-fsanitize-address-field-padding=1', '-fsanitize-ignorelist=' + _C19_IGNORE],
-       quick=dict(cases=80000, size=120), thorough=dict(cases=2000000, size=200, max_seconds=900))
-prop('C19', ['c19_sdu'], 'comp',
+       quick=dict(cases=80000, size=120), thorough=dict(cases=2000000, size=200))
+target('c19_sdu_fuzz', 'engines/comp/c19_sdu_fuzz.cpp', kind='fuzz',
+       quick=dict(runs=40000, max_seconds=60, max_len=600), thorough=dict(runs=5000000, max_seconds=1200, max_len=600))
+prop('C19', ['c19_sdu', 'c19_sdu_fuzz'], 'comp',
      rule='rapidcheck picks one of 18 instantiated ll_l2cap_sdu_buffer (MTU 23 specialisation, 24, 30, 65, 158, 247 x transmit/receive ring '
           'sizes x default / nRF encrypted layout, on top of the real ll_data_pdu_buffer), initial max_rx/max_tx sizes and a history of: '
           'outgoing SDUs of length 0..MTU and LL control PDUs, exchanges with an acknowledging central, next_ll_l2cap_received/free, max_tx '
